@@ -183,7 +183,7 @@ Definition step (s : qst) (e : ev) : option qst :=
     if q_running s && has_file m f then Some (upd_msg s n (set_sync m f)) else None
   | ERecs n a b =>
     let m := getm (q_msgs s) n in
-    if q_running s && f_todo m && negb (m_have_recs m) && Nat.eqb (a + b) (m_nrcpt m)
+    if q_running s && f_todo m && f_info m && negb (m_have_recs m) && Nat.eqb (a + b) (m_nrcpt m)
        && Bool.eqb (f_local m) (negb (Nat.eqb a 0)) && Bool.eqb (f_remote m) (negb (Nat.eqb b 0))
     then Some (upd_msg s n (set_meta m (m_owner m) (m_nrcpt m) (m_dbl m) [repeat rec0 a; repeat rec0 b] true false)) else None
   | ECleanIntd n =>
